@@ -46,4 +46,6 @@ def main : IO Unit := do
     loop h out ({} : Ident.World) Ident.driverStep {}
   | some (.list [.atom "model", .atom "savesteps"]) =>
     loop h out () SaveSteps.driverStep ()
+  | some (.list [.atom "model", .atom "ext"]) =>
+    loop h out ({} : Ext.State) Ext.driverStep {}
   | _ => out.putStrLn "unknown-model"
